@@ -254,7 +254,7 @@ theorem enqueue_stepOK {q : List Item} {prev : Int} (h : QOk q prev) (it : Item)
 
 /-- phase 1 of a transactional item: the forced flush of what was queued before -/
 theorem preFlush_stepOK (c : SCfg) (s : SState) (t : Txn) (nf : Bool) (prev : Int)
-    (hq : QOk s.queue prev) (hlt : prev < s.lastOffset) :
+    (hq : QOk s.queue prev) (hlt : prev ≤ s.lastOffset) :
     (preFlush c s t nf prev).1.lastOffset = s.lastOffset ∧
     ((StepOK s.queue prev (preFlush c s t nf prev).1.queue prev (keys (preFlush c s t nf prev).2)) ∨
      (t = .commit ∧ (preFlush c s t nf prev).1.queue = [] ∧
@@ -284,14 +284,15 @@ theorem tail_out (c : SCfg) (s : SState) (tb up : Bool) (out : List Batch) :
   · split <;> simp
 
 theorem stepItemTxn_ok (c : SCfg) (s : SState) (t : Txn) (nf : Bool) (it : Item) (prev : Int)
-    (hq : QOk s.queue prev) (hlt : prev < s.lastOffset) (hit : it.offset = s.lastOffset)
+    (hq : QOk s.queue prev) (hle : prev ≤ s.lastOffset)
+    (hlt : t ≠ .commit → prev < s.lastOffset) (hit : it.offset = s.lastOffset)
     (hp : it.cmd ≠ bPing) :
     StepOK s.queue prev (stepItemTxn c s t nf it prev).1.queue s.lastOffset
       (keys (stepItemTxn c s t nf it prev).2) ∧
     (stepItemTxn c s t nf it prev).1.lastOffset = s.lastOffset := by
   unfold stepItemTxn
   simp only
-  obtain ⟨hl1, hph1⟩ := preFlush_stepOK c s t nf prev hq hlt
+  obtain ⟨hl1, hph1⟩ := preFlush_stepOK c s t nf prev hq hle
   generalize hpf : preFlush c s t nf prev = pf at hl1 hph1
   -- phase 2: absorb
   have hph2 : ∃ K, K = keys pf.2 ∧ StepOK s.queue prev (absorb pf.1 t it).queue s.lastOffset K ∧
@@ -302,12 +303,14 @@ theorem stepItemTxn_ok (c : SCfg) (s : SState) (t : Txn) (nf : Bool) (it : Item)
       unfold absorb
       split
       · -- enqueue
+        rename_i hten
+        have hlt' := hlt hten.2
         have := stepOK_trans h1 (enqueue_stepOK hq1 it (by omega) hp)
         simpa [enqueue, hit] using this
       · split
-        · have := stepOK_trans h1 (stepOK_relabel pf.1.queue hq1 (Int.le_of_lt hlt))
+        · have := stepOK_trans h1 (stepOK_relabel pf.1.queue hq1 hle)
           simpa using this
-        · have := stepOK_trans h1 (stepOK_relabel pf.1.queue hq1 (Int.le_of_lt hlt))
+        · have := stepOK_trans h1 (stepOK_relabel pf.1.queue hq1 hle)
           simpa using this
     · subst htc
       have : absorb pf.1 Txn.commit it = pf.1 := by simp [absorb]
@@ -324,20 +327,23 @@ theorem stepItemTxn_ok (c : SCfg) (s : SState) (t : Txn) (nf : Bool) (it : Item)
   exact ⟨stepOK_trans h2 h3, hl3⟩
 
 theorem stepItemPlain_ok (c : SCfg) (s : SState) (t : Txn) (it : Item) (prev : Int)
-    (hq : QOk s.queue prev) (hlt : prev < s.lastOffset) (hit : it.offset = s.lastOffset)
+    (hq : QOk s.queue prev) (hle : prev ≤ s.lastOffset)
+    (hlt : t ≠ .commit → prev < s.lastOffset) (hit : it.offset = s.lastOffset)
     (hp : it.cmd ≠ bPing) :
     StepOK s.queue prev (stepItemPlain c s t it).1.queue s.lastOffset
       (keys (stepItemPlain c s t it).2) ∧
     (stepItemPlain c s t it).1.lastOffset = s.lastOffset := by
   unfold stepItemPlain
   split
-  · exact ⟨stepOK_relabel s.queue hq (Int.le_of_lt hlt), rfl⟩
+  · exact ⟨stepOK_relabel s.queue hq hle, rfl⟩
   · split
     · obtain ⟨h3, hl3⟩ := tail_stepOK c { s with needFlush := true } c.txnMode (c.resume && c.txnMode)
-        (qok_weaken hq (Int.le_of_lt hlt))
-      have := stepOK_trans (stepOK_relabel s.queue hq (Int.le_of_lt hlt)) h3
+        (qok_weaken hq hle)
+      have := stepOK_trans (stepOK_relabel s.queue hq hle) h3
       exact ⟨by simpa using this, hl3⟩
-    · have he := enqueue_stepOK hq it (by omega) hp
+    · rename_i htc
+      have hlt' := hlt htc
+      have he := enqueue_stepOK hq it (by omega) hp
       rw [hit] at he
       obtain ⟨h3, hl3⟩ := tail_stepOK c (enqueue s it) c.txnMode (c.resume && c.txnMode)
         (by simpa [enqueue] using he.1)
@@ -371,9 +377,14 @@ theorem keepalive_ping_ok (c : SCfg) (s : SState) (up : Bool) (hq : s.queue = []
   · exact within_nil _ _
   · exact ⟨by simp, by intro k hk; simp at hk; simp [lowkey]; omega⟩
 
-/-- **One iteration keeps the wire ordered.** -/
+/-- an `EXEC` always yields the commit status -/
+theorem txnStatus_exec (p : Txn) : (txnStatus bExec p).1 = .commit := by
+  cases p <;> decide
+
+/-- **One iteration keeps the wire ordered.** Item offsets never decrease; only an
+    `EXEC` (never queued) may repeat the previous item's offset. -/
 theorem step_ok (c : SCfg) (s : SState) (ev : Ev) (hq : QOk s.queue s.lastOffset)
-    (hlt : ∀ it, ev = .item it → s.lastOffset < it.offset) :
+    (hlt : ∀ it, ev = .item it → s.lastOffset ≤ it.offset ∧ (it.cmd ≠ bExec → s.lastOffset < it.offset)) :
     StepOK s.queue s.lastOffset (step c s ev).1.queue (step c s ev).1.lastOffset
       (keys (step c s ev).2) := by
   have plain : ∀ (s0 : SState) tb up, s0.queue = s.queue → s0.lastOffset = s.lastOffset →
@@ -384,10 +395,12 @@ theorem step_ok (c : SCfg) (s : SState) (ev : Ev) (hq : QOk s.queue s.lastOffset
     rw [hl3, h2]; rw [h1, h2] at h3; exact h3
   cases ev with
   | item it =>
-    have hn := hlt it rfl
+    obtain ⟨hn, hne⟩ := hlt it rfl
+    have hcm : (txnStatus it.cmd s.txn).1 ≠ .commit → s.lastOffset < it.offset :=
+      fun h => hne (fun he => h (by rw [he]; exact txnStatus_exec s.txn))
     simp only [step]
     split
-    · exact stepOK_relabel s.queue hq (Int.le_of_lt hn)
+    · exact stepOK_relabel s.queue hq hn
     · rename_i hp
       unfold stepItem
       simp only
@@ -395,12 +408,12 @@ theorem step_ok (c : SCfg) (s : SState) (ev : Ev) (hq : QOk s.queue s.lastOffset
       · obtain ⟨h, hl⟩ := stepItemTxn_ok c
           { s with lastOffset := it.offset, txn := (txnStatus it.cmd s.txn).1,
                    needFlush := (txnStatus it.cmd s.txn).2 }
-          (txnStatus it.cmd s.txn).1 (txnStatus it.cmd s.txn).2 it s.lastOffset hq hn rfl hp
+          (txnStatus it.cmd s.txn).1 (txnStatus it.cmd s.txn).2 it s.lastOffset hq hn hcm rfl hp
         rw [hl]; exact h
       · obtain ⟨h, hl⟩ := stepItemPlain_ok c
           { s with lastOffset := it.offset, txn := (txnStatus it.cmd s.txn).1,
                    needFlush := (txnStatus it.cmd s.txn).2 }
-          (txnStatus it.cmd s.txn).1 it s.lastOffset hq hn rfl hp
+          (txnStatus it.cmd s.txn).1 it s.lastOffset hq hn hcm rfl hp
         rw [hl]; exact h
   | batchTick =>
     simp only [step]
